@@ -17,6 +17,7 @@ import (
 	"encoding/json"
 	"fmt"
 	"os"
+	"unicode/utf8"
 )
 
 type replay struct {
@@ -58,6 +59,10 @@ func Rune(name string) rune     { return rune(uint32(in(name))) }
 func Byte(name string) byte     { return byte(in(name)) }
 func Bool(name string) bool     { return in(name) != 0 }
 func Symbolic() bool            { return false }
+
+// ModelDecodeRune is the engine's model of utf8.DecodeRune under symgo and the
+// real function natively.
+func ModelDecodeRune(p []byte) (rune, int) { return utf8.DecodeRune(p) }
 func Param(name string, def int) int {
 	load()
 	if v, ok := rp.Params[name]; ok {
